@@ -483,6 +483,25 @@ Section ReaderProofs.
       split; [intros _; apply cache_ok_none|]. split; [intros _; split; reflexivity|]. intros Hf; discriminate.
   Qed.
 
+  (* packetdump receiver, RTCP side: parses a private copy, leaves the cache alone *)
+  Lemma rtransparent_parse_nocache : rtransparent (r_parse_nocache parse).
+  Proof.
+    intros S inner a own s _. cbv zeta. unfold r_parse_nocache.
+    destruct (inner a s) as [s' [[[n d] at_] e]]. cbn [fst snd rd ra re rn].
+    destruct e as [|e0 e].
+    - destruct (parse d) as [h|] eqn:G; cbn [fst snd rd ra re rn].
+      + split; [reflexivity|]. split; [reflexivity|].
+        split; [intros Hc; apply cache_ok_fresh; exact Hc|].
+        split; [intros Hne; congruence|].
+        intros _ Hd Hc. split; [reflexivity|]. split; [reflexivity|].
+        apply attr_ext_fresh; auto.
+      + split; [reflexivity|]. split; [reflexivity|]. split; [intros _; apply cache_ok_none|].
+        split; [intros Hne; congruence|].
+        intros _ (h & Hp & _) Hc. congruence.
+    - cbn [fst snd rd ra re rn]. split; [reflexivity|]. split; [reflexivity|].
+      split; [intros _; apply cache_ok_none|]. split; [intros _; split; reflexivity|]. intros Hf; discriminate.
+  Qed.
+
   Lemma rtransparent_twcc_sender sid : rtransparent (r_twcc_sender parse tcc_ext sid).
   Proof.
     unfold r_twcc_sender. destruct (sid =? 0); [apply rtransparent_id|].
